@@ -25,12 +25,14 @@ var (
 		"JaVaScRiPt:alert(1)", " javascript:alert(1)", "java\tscript:alert(1)", "jav&#x09;ascript:alert(1)", "data:image/png;base64,iVBORw0KGgo=",
 		"data:text/html,<script>alert(1)</script>", "mailto:a@b.c", "//host/p", "http://[::1]/", "http://a b/", "%zz", "vbscript:x",
 		"", "?q=1", "ftp://f/x", "x:y", "http:\\\\e.com\\p", "HTTP://EXAMPLE.ORG/Up", "http://u:p@h.com/", "http://h.com/%41%zz", "https://xn--nxasmq6b.example/",
-		"http://example.com/é", "httpx://e.com/", "xhttp://e.com/x", "web+https:x", "https:opaque.example/p.gif", "a b", "x\ty", "/caf\u00e9/menu", "http://e.com/%zz", " http://example.org/lead", "\nhttps://e.com/x", "https://e.com/trail\n", "data:image/png;base64,iVBO\nRw0KGgo=", "\x01javascript:alert(1)", "http://example.org/a b", "tel:+1234", "HtTpS://e.com/x?y=<z>"}
+		"http://example.com/é", "httpx://e.com/", "xhttp://e.com/x", "web+https:x", "https:opaque.example/p.gif", "a b", "x\ty", "/caf\u00e9/menu", "http://e.com/%zz", " http://example.org/lead", "\nhttps://e.com/x", "https://e.com/trail\n", "data:image/png;base64,iVBO\nRw0KGgo=", "\x01javascript:alert(1)", "http://example.org/a b", "tel:+1234", "HtTpS://e.com/x?y=<z>",
+		"data:image/png;base64,%zz", "data:image/png;base64,%41%42", "data:image/png;base64,iVBO%0ARw0K", "data:image/gif;base64,", "data:image/png;base64"}
 	genTextVals  = []string{"k", "a b", "x\"y", "<i>", "&amp;", "é中", "1", "50%", "rtl", "LTR", "", "left", "abc def", "'q'", "a\x00b", "on", "red;"}
 	genRelVals   = []string{"nofollow", "NOFOLLOW", "noopener", "tag", "xnofollowx", "", "me  nofollow", "noreferrer noopener", "notnoopenerx", "author\tnofollow"}
 	genTgtVals   = []string{"_blank", "_top", "", "_BLANK", "frame1"}
 	genStyleVals = []string{"color: red", "color:red;background:url(javascript:alert(1))", "COLOR: RED; font-size: 12px", "text-align:center;;", "width: expression(alert(1))",
-		"color: \\72 ed", "color: r\\65D", "color: b\\6Cue", "-webkit-transition: none", "color: red !important", "background-image: url('http://e.com/a;b.png')", "/* c */ color: blue", "color", ":", "color: r\\65 d", "font-family: \\110000 x"}
+		"color: \\72 ed", "color: r\\65D", "color: b\\6Cue", "-webkit-transition: none", "color: red !important", "background-image: url('http://e.com/a;b.png')", "/* c */ color: blue", "color", ":", "color: r\\65 d", "font-family: \\110000 x",
+		"color: r\\0 ed", "color: \\d800 x", "color: \\5c 72 ed", "color: \\", "color: \\ffffff"}
 	genSandboxVals = []string{"allow-forms", "allow-scripts allow-forms", "allow-forms  allow-forms", "bogus", "", "ALLOW-FORMS", "allow-same-origin\tallow-popups bogus"}
 )
 
@@ -387,6 +389,14 @@ func GenDoc(r *rand.Rand, p *AP, kind int) (toks []Tok, b []byte) {
 			}
 		}
 		toks = g.wellNested(0, 2+r.Intn(8))
+		if r.Intn(12) == 0 { // a byte order mark (or two) in front: character data like any other
+			bom := []string{"\ufeff", "\ufeff\ufeff"}[r.Intn(2)]
+			if len(toks) > 0 && toks[0].T == "text" {
+				toks[0].D = bom + toks[0].D
+			} else {
+				toks = append([]Tok{{T: "text", D: bom + g.mark("T"), A: []Attr{}}}, toks...)
+			}
+		}
 		var vr *rand.Rand
 		if r.Intn(3) != 0 {
 			vr = r
@@ -472,7 +482,7 @@ func GenDoc(r *rand.Rand, p *AP, kind int) (toks []Tok, b []byte) {
 		return nil, []byte(sb.String())
 	case 9: // markup-free text with every kind of white space and odd bytes
 		var sb strings.Builder
-		words := []string{"plain", "text", "a", "\r", "\r\n", "\n", "\t", " ", "  ", "\x00", "é", "中", "\xff", "1", ".", ",", "-", "\x0c", "\x0b"}
+		words := []string{"plain", "text", "a", "\r", "\r\n", "\n", "\t", " ", "  ", "\x00", "é", "中", "\xff", "1", ".", ",", "-", "\x0c", "\x0b", "\ufeff", "\ufeff\ufeff"}
 		for k := 1 + r.Intn(12); k > 0; k-- {
 			sb.WriteString(pickS(r, words))
 		}
